@@ -73,7 +73,7 @@ func main() {
 	case "c10sm":
 		err = h.RunC10SM(*cases, *trace, *stats, *seed, *proj)
 	case "dscen":
-		err = h.RunDScen(*cases, *trace, *stats, *seed, *proj)
+		err = h.RunDScen(*cases, *trace, *stats, *seed, *proj, *valslash)
 	case "c12sm":
 		err = h.RunC12SM(*cases, *trace, *stats, *seed, *proj)
 	case "c07sm":
